@@ -1,0 +1,25 @@
+//go:build verif
+
+// Contracts for package decode, checked by /verif/govc. Comment-only file: with the
+// build tag off it does not exist for the compiler.
+
+package decode
+
+//@ uses numbers
+
+//@ contract (buffer).decodeNatural
+//@   ensures [C08.dec.nat.n C02.dec.nat.n C03.dec.nat] (= n (spec.numN (arr b) (off b) (len b)))
+//@   ensures [C08.dec.nat.value C03.dec.nat] (=> (not (= n (int 0))) (= u (spec.natV (arr b) (off b))))
+//@   ensures [C08.dec.nat.zero] (=> (= n (int 0)) (= u (u32 0)))
+
+//@ contract (buffer).decodeReal
+//@   ensures [C08.dec.real.n C02.dec.real.n C03.dec.real] (= n (spec.numN (arr b) (off b) (len b)))
+//@   ensures [C08.dec.real.value C03.dec.real] (=> (not (= n (int 0))) (= f (spec.realV (arr b) (off b))))
+
+//@ contract (buffer).decodeCoordinate
+//@   ensures [C08.dec.coord.n C02.dec.coord.n C03.dec.coord] (= n (spec.numN (arr b) (off b) (len b)))
+//@   ensures [C08.dec.coord.value C03.dec.coord] (=> (not (= n (int 0))) (= f (spec.coordV (arr b) (off b))))
+
+//@ contract (buffer).decodeZeroToOne
+//@   ensures [C08.dec.z2o.n C02.dec.z2o.n C03.dec.z2o] (= n (spec.numN (arr b) (off b) (len b)))
+//@   ensures [C08.dec.z2o.value C03.dec.z2o] (=> (not (= n (int 0))) (= f (spec.z2oV (arr b) (off b))))
